@@ -1,11 +1,39 @@
-(* C06 -- placeholder while the proofs are being developed: states only that acceptance implies the by-itself checks. *)
+(* C06 -- tamper evidence.  Value level, with the cryptographic idealisations as EXPLICIT premises of each theorem
+   (injectivity of scrypt / blake2 / sha256d; never axioms): an acceptable block is determined by any two of its three
+   components (summary, evidence, transaction list), so altering any single component of an accepted block never yields
+   another acceptable block; two acceptable blocks with the same id are equal; two different byte strings that both
+   decode are different blocks (canonicity).  NOT proved for all blocks: alterations that change several components at
+   once (a flipped bit in a variable-length prefix shifts every later field) -- that needs a random-oracle argument;
+   those cases are finite per block and are enumerated exhaustively by the check (every bit, every truncation point). *)
 From stdpp Require Import gmap.
-From Coq Require Import NArith ZArith.
-From SkV Require Import Bytes Codec Ledger ChainState Pow Validate.
-Theorem C06_accept_passes_by_itself : forall sha scrypt blake verify P s b now s',
-  add_block sha scrypt blake verify P s b now = Ok s' -> v_block_by_itself sha P b now = Ok tt.
-Proof.
-  intros sha scrypt blake verify P s b now s' H. unfold add_block, bind in H.
-  destruct (v_block_by_itself sha P b now) as [[]|k] eqn:E; [reflexivity | discriminate].
-Qed.
-Print Assumptions C06_accept_passes_by_itself.
+From Coq Require Import NArith.
+From SkV Require Import Bytes Codec Ledger ChainState Pow Validate ChainDefs TamperProofs.
+
+Theorem C06_single_component : forall sha scrypt blake verify P,
+  (forall a b : bytes, scrypt a = scrypt b -> a = b) -> (forall a b : bytes, blake a = blake b -> a = b) ->
+  forall s bs bs' b b' now now' s1,
+  bytes_wf bs -> bytes_wf bs' -> dec_block bs = Some (b, []) -> dec_block bs' = Some (b', []) -> bs <> bs' ->
+  add_block sha scrypt blake verify P s b now = Ok s1 -> FV P b -> FV P b' -> agree_on_two b b' ->
+  forall s2, add_block sha scrypt blake verify P s b' now' <> Ok s2.
+Proof. exact tampered_bytes_rejected. Qed.
+
+Theorem C06_same_id_same_content : forall sha scrypt blake verify P,
+  (forall a b : bytes, sha a = sha b -> a = b) -> (forall a b : bytes, blake a = blake b -> a = b) ->
+  forall s s' b b' now now' s1 s2,
+  add_block sha scrypt blake verify P s b now = Ok s1 -> add_block sha scrypt blake verify P s' b' now' = Ok s2 ->
+  FV P b -> FV P b' -> wf_block b = true -> wf_block b' = true -> block_id sha b = block_id sha b' -> b = b'.
+Proof. exact same_id_same_block_any_state. Qed.
+
+Theorem C06_evidence_function : forall sha scrypt blake verify P s b b' now now' s1 s2,
+  add_block sha scrypt blake verify P s b now = Ok s1 -> add_block sha scrypt blake verify P s b' now' = Ok s2 ->
+  FV P b -> FV P b' -> h_summary (b_header b) = h_summary (b_header b') -> b_txs b = b_txs b' -> b = b'.
+Proof. exact evidence_is_function. Qed.
+
+Theorem C06_distinct_bytes_distinct_blocks : forall bs bs' b b', bytes_wf bs -> bytes_wf bs' ->
+  dec_block bs = Some (b, []) -> dec_block bs' = Some (b', []) -> bs <> bs' -> b <> b'.
+Proof. exact distinct_bytes_distinct_blocks. Qed.
+
+Print Assumptions C06_single_component.
+Print Assumptions C06_same_id_same_content.
+Print Assumptions C06_evidence_function.
+Print Assumptions C06_distinct_bytes_distinct_blocks.
